@@ -1,6 +1,7 @@
 (* C13 — subscribers get each emitted event exactly once, in order, only while subscribed.
    Property theorems only; the model is theories/Signals.v, proofs theories/SignalsProofs.v. *)
 From QV Require Import Signals SignalsProofs SignalsInv3 SignalsMain SignalsQuiesce SignalsRaw SignalsRawProofs.
+From QV Require Import SignalsFwd SignalsFwdProofs.
 Local Open Scope N_scope.
 
 (* Reading of the statement.  A run is any sequence of labels accepted by [run] from [init]: every
@@ -116,7 +117,59 @@ Theorem C13_raw_is_mailbox_step : forall g st c f rest st',
 Proof. exact step_mbox_is_raw_step. Qed.
 Print Assumptions C13_raw_is_mailbox_step.
 
+
+(* The client side of subscriptions on one client (SignalsFwd.v): handler slots whose indexes are the
+   handler ids (reused once free), one forwarding goroutine per subscription (FTake: it takes an event
+   from its queue and is blocked in its send until FRead: the subscriber receives), cancel functions
+   (FCancel: close(abort); FAbort: the forwarder sees it, RemoveHandler(its id), close(events)), the
+   connection's end (FDown).  Every interleaving of these labels for any number of subscribers of any
+   signals: a subscriber that has not cancelled, on a connection that is up, still has its handler in
+   its slot, its queue and its channel are open, and what it has received ++ the event its forwarder
+   holds ++ its queue is exactly the sequence of events of its signal dispatched since its subscription
+   (within the queue capacity); for a subscriber that has cancelled the same equation says that what
+   it received is a prefix of it.  [f_all] is ghost and does not depend on the slots. *)
+Theorem C13_holds_client_side : forall tr st s x,
+  frun finit tr = Some st -> nth_error (fsubs st) s = Some x ->
+  (fover st = false -> f_got x ++ oh (f_hold x) ++ f_queue x = f_all x) /\
+  (f_abort x = false -> fdown st = false ->
+     f_qclosed x = false /\ f_done x = false /\ slots st (f_slot x) = Some s).
+Proof. exact fwd_holds. Qed.
+Print Assumptions C13_holds_client_side.
+
+(* one subscriber's cancel never removes another's handler: the RemoveHandler of forwarder s leaves every
+   other subscription and every slot that holds another subscription's handler as they were *)
+Theorem C13_holds_cancel_removes_own_handler : forall tr st s st',
+  frun finit tr = Some st -> fstep st (FAbort s) = Some st' ->
+  forall s', s' <> s ->
+    nth_error (fsubs st') s' = nth_error (fsubs st) s' /\
+    (forall i, slots st i = Some s' -> slots st' i = Some s').
+Proof. exact fwd_cancel_own. Qed.
+Print Assumptions C13_holds_cancel_removes_own_handler.
+
+(* the queue of a subscription is closed by no step but its own forwarder's abort and the connection's end *)
+Theorem C13_holds_closed_only_by_own_cancel : forall tr st l st' s x,
+  frun finit tr = Some st -> fstep st l = Some st' ->
+  nth_error (fsubs st) s = Some x -> f_qclosed x = false ->
+  l <> FAbort s -> l <> FDown ->
+  exists x', nth_error (fsubs st') s = Some x' /\ f_qclosed x' = false.
+Proof. exact fwd_closed_by. Qed.
+Print Assumptions C13_holds_closed_only_by_own_cancel.
+
+(* what the correspondence replays (operations of a harness that owns the readers, with the forwarders'
+   forced steps in between) is a run of this transition system: the theorems above hold for its states *)
+Theorem C13_client_side_replay_is_run : forall os st,
+  freplay finit os = Some st -> exists tr, frun finit tr = Some st.
+Proof. exact fwd_replay_is_run. Qed.
+Print Assumptions C13_client_side_replay_is_run.
+
 Example C13_nonvacuous : exists st, run cfg0 init tr_ex = Some st /\ overflow st = false /\
   map (fun x => (s_pc x, s_got x, s_win x)) (subs st) =
     [(PClosed, [5], [5]); (PClosed, [5; 6], [5; 6]); (PAcked, [5; 6], [5; 6])].
 Proof. exact ex_run. Qed.
+
+(* cancel with an undelivered event, a new subscriber before the leaver reads on, the leaver reads to the end *)
+Theorem C13_witness_client_side : exists st, freplay finit fwd_ops_ex = Some st /\
+  map (fun x => (f_slot x, f_done x, f_got x)) (fsubs st) = [(0%nat, true, [1]); (1%nat, false, [2])] /\
+  slots st 0%nat = None /\ slots st 1%nat = Some 1%nat /\ fover st = false.
+Proof. exact fwd_ex. Qed.
+Print Assumptions C13_witness_client_side.
